@@ -222,8 +222,8 @@ def rule_requeue(ctx):
             for part in (None, OTHER):
                 for typ in ("retry", None, OTHER):
                     base = {("A", (), "participant"): part, ("A", (), "type"): typ}
-                    for c, r in enumerate_cells(lambda c, d, base=base: run(dict(base, **c), d, queued), {}, max_cells=200):
-                        cells.append((dict(base, **c), r))
+                    for c, r in enumerate_cells(lambda c, d, base=base: run({**base, **c}, d, queued), {}, max_cells=200):
+                        cells.append(({**base, **c}, r))
         except Budget:
             ctx.undecided("C03.enq", w, "receipt for a %s message" % ("queued" if queued else "message that is not queued"), "budget exceeded")
             continue
